@@ -184,3 +184,80 @@ def numeric_poly(alg, t, var):
             raise AnalysisError("coefficient of %s^%d is not numeric: %r" % (var, i, p))
         coeffs.append(p.const_value())
     return coeffs
+
+
+# --------------------------------------------------------------------------- R-TIMEARG
+TIMEARG_EXCEPTIONS = {
+    ("Coordinates.precession_newcomb", "36524.2199"): "Newcomb's theory counts tropical centuries from B1900 (2415020.3135)",
+    ("Epoch.Epoch.get_date", "36524.25"): "mean Gregorian century of the calendar algorithm (Meeus ch.7), not a time argument",
+    ("Epoch.Epoch.moslem2gregorian", "36524.25"): "same calendar algorithm block",
+}
+CENTURIES = (36525.0, 365250.0, 3652500.0)
+
+
+def timearg_scan(repo, rep, funcs, rule="R-TIMEARG"):
+    """Time arguments of the theories are clones of (E - L) / K.  For every such
+    expression in the listed functions whose K is within 0.1 % of a Julian
+    century/millennium/10 millennia, or whose L is within 40 days of J2000:
+    K is exactly 36525 * 10**n and L exactly 2451545.0 (or JDE2000)."""
+    rep.rule(rule, "every time argument (E - L)/K with K near a Julian century multiple or L near J2000 uses exactly "
+                   "K in {36525, 365250, 3652500} and L = 2451545.0")
+    n = 0
+    for mod, qual in funcs:
+        fn = repo.func(mod, qual)
+        site = "%s.%s" % (mod, qual)
+        for node in ast.walk(fn):
+            if not (isinstance(node, ast.BinOp) and isinstance(node.op, ast.Div)):
+                continue
+            k = const_value(repo, mod, node.right)
+            if k is None:
+                continue
+            left = node.left
+            if not (isinstance(left, ast.BinOp) and isinstance(left.op, ast.Sub)):
+                continue
+            lval = const_value(repo, mod, left.right)
+            near_k = any(abs(k - c) / c < 1e-3 for c in CENTURIES)
+            near_l = lval is not None and abs(lval - 2451545.0) < 40.0
+            if not (near_k or near_l):
+                continue
+            n += 1
+            ktxt = norm_text(node.right)
+            if (site, ktxt) in TIMEARG_EXCEPTIONS:
+                rep.ok(rule, site, "listed exception K=%s: %s" % (ktxt, TIMEARG_EXCEPTIONS[(site, ktxt)]), sample=False)
+                continue
+            problems = []
+            if near_k and k not in CENTURIES:
+                problems.append("divisor %s is not exactly a Julian century multiple" % ktxt)
+            if near_l and lval != 2451545.0:
+                problems.append("origin %s is not exactly J2000 (2451545.0)" % norm_text(left.right))
+            if near_k and lval is not None and not near_l and k in CENTURIES and abs(lval - 2451545.0) < 400:
+                problems.append("origin %s is close to but not J2000" % norm_text(left.right))
+            if problems:
+                rep.violation(rule, site, "timearg:" + norm_text(node)[:70], "; ".join(problems), construct=norm_text(node)[:120])
+            else:
+                rep.ok(rule, site, norm_text(node)[:80], sample=(n <= 3))
+    return n
+
+
+def const_value(repo, mod, node):
+    """numeric value of a literal / JDE2000 / module constant expression, else None"""
+    if isinstance(node, ast.Constant) and isinstance(node.value, (int, float)) and not isinstance(node.value, bool):
+        return float(node.value)
+    if isinstance(node, ast.Name):
+        if node.id == "JDE2000":
+            t = symx.lookup(symx.Ctx(repo, mod), "JDE2000", {})
+            if t[0] == "epoch" and t[1][0] == "num":
+                return float(t[1][1])
+            return None
+        m = repo.mod(mod)
+        if node.id in m.globals:
+            try:
+                v = m.literal(node.id)
+                if isinstance(v, (int, float)):
+                    return float(v)
+            except AnalysisError:
+                return None
+    if isinstance(node, ast.UnaryOp) and isinstance(node.op, ast.USub):
+        v = const_value(repo, mod, node.operand)
+        return -v if v is not None else None
+    return None
